@@ -62,6 +62,7 @@ func Round(x float64, prec jtypes.OptionalInt) float64 {
 	if prec.Int >= 0 && x == math.Trunc(x) {
 		return x
 	}
+	orig := x
 	intermed := multByPow10(x, prec.Int)
 	if math.IsInf(intermed, 0) {
 		return x
@@ -92,7 +93,12 @@ func Round(x float64, prec jtypes.OptionalInt) float64 {
 		return 0
 	}
 
-	return multByPow10(x, -prec.Int)
+	if res := multByPow10(x, -prec.Int); !math.IsInf(res, 0) {
+		return res
+	}
+
+	// The rounded value is too large for a float64.
+	return orig
 }
 
 // Power returns x to the power of y.
